@@ -237,7 +237,9 @@ def contents(kind, b):
         return (sorted(b.items(), key=repr), len(b))
     if kind == 'set':
         return (sorted(b.rawData()), len(b))
-    priv = [v for k, v in b.__dict__.items() if k.endswith('__data')][0]
+    # the wrapped container, whatever the private attribute is called
+    import collections as _c
+    priv = [v for k, v in sorted(b.__dict__.items()) if isinstance(v, (list, _c.deque))][0]
     if kind == 'queue':
         return (list(priv), b.qsize())
     return (sorted(priv), b.qsize())
